@@ -80,6 +80,12 @@ func RefFlow(p *Program, s *Scenario, exec uint64) *FlowRef {
 				predState = pr.Outcome.Kind
 			}
 		}
+		fbTok := func(i int) uint64 {
+			if p.Types[t.Fn.Outs[i]] == KF64 {
+				return ConstFBTok(p.Name, t.Fn.ID, i)
+			}
+			return FallbackTok(exec, t.Fn.ID, i)
+		}
 		setOuts := func(get func(i int) uint64, ok bool) {
 			for i, o := range t.Fn.Outs {
 				val[o] = get(i)
@@ -99,7 +105,7 @@ func RefFlow(p *Program, s *Scenario, exec uint64) *FlowRef {
 			tr.Status = MustNot
 			if t.Fallback {
 				tr.TaskEnd = TErecovered
-				setOuts(func(i int) uint64 { return FallbackTok(exec, t.Fn.ID, i) }, true)
+				setOuts(fbTok, true)
 			} else {
 				tr.TaskEnd = TEfailed
 				ref.Failing[t.Fn.ID] = true
@@ -114,7 +120,7 @@ func RefFlow(p *Program, s *Scenario, exec uint64) *FlowRef {
 			default: // error, panic, goexit
 				if t.Fallback && tr.Outcome.Kind != OGoexit {
 					tr.TaskEnd = TErecovered
-					setOuts(func(i int) uint64 { return FallbackTok(exec, t.Fn.ID, i) }, true)
+					setOuts(fbTok, true)
 				} else {
 					tr.TaskEnd = TEfailed
 					ref.Failing[t.Fn.ID] = true
